@@ -18,6 +18,14 @@ from geometry_tools.hyperbolic import Point, TangentVector, Polygon
 # search (counted under `excluded`) until repaired or listed as open
 PENDING_FINDINGS = {"C13-angle-nan-for-parallel-vectors"}
 
+
+def pending(fid):
+    """True while `fid` is a reported-but-unlisted finding; VERIF_PENDING=0 switches the
+    exclusion off (to replay the saved case of the finding and see it fail)"""
+    import os
+    return fid in PENDING_FINDINGS and os.environ.get("VERIF_PENDING", "1") != "0"
+
+
 RULE = ("dimension n in 2..5 (1 also generated, counted trivial), composite shapes of rank 0..2; "
         "basepoints = Klein points (direction x radius, simple rational points mixed in) given "
         "to the library as projective representatives with factors in +-[0.2,5]; tangent "
@@ -379,7 +387,7 @@ def cosine_case(draw):
     n = dims(draw, lo=2)
     shape = draw(st.sampled_from(SHAPES))
     cnt = gen.prod(shape)
-    kind = draw(st.integers(0, 11))
+    kind = draw(st.integers(0, 19))
     th = []
     for _ in range(cnt):
         if kind == 0:
@@ -421,7 +429,7 @@ def body_cosine(case, ctx):
     if degenerate:
         ctx.label("degenerate-angle")
         fid = "C13-angle-nan-for-parallel-vectors"
-        if fid in PENDING_FINDINGS or ctx.known(fid):
+        if pending(fid) or ctx.known(fid):
             ctx.exclude(fid)
             return
     P, U1, U2 = [], [], []
